@@ -1,2 +1,221 @@
+(* C18 — proofs about PseudoURL.cpp: a URL assembled from a type, a file name and
+   name=value pairs parses back into exactly those parts; getValue returns the last
+   duplicate; hasParam holds exactly for the names present. *)
 From Common Require Import Prelude.
-From C18 Require Import Model.
+From C18 Require Import Model ProofsStr.
+Local Open Scope N_scope.
+
+Definition COLON : N := 58.
+Definition EQS : N := 61.
+
+(* "name=value" *)
+Definition enc_param (p : str * str) : str := fst p ++ EQS :: snd p.
+
+(* type "://" file { ":" name "=" value } *)
+Definition assemble (ty file : str) (ps : list (str * str)) : str :=
+  ty ++ sep3 ++ file ++ concat (map (fun p => COLON :: enc_param p) ps).
+
+(* no occurrence of "://" *)
+Definition no_sep3 (s : str) : Prop := forall a b, s <> a ++ sep3 ++ b.
+
+(* ------------------------------------------------------------------ fields *)
+Lemma fields_app_clean t rest d :
+  ~ In d t -> fields (t ++ rest) d = (t ++ fst (fields rest d), snd (fields rest d)).
+Proof.
+  induction t as [|c t IH]; intro H; simpl.
+  - now destruct (fields rest d).
+  - rewrite IH by (intro I; apply H; now right). simpl.
+    destruct (N.eqb_spec c d) as [->|Hne]; [exfalso; apply H; now left | reflexivity].
+Qed.
+
+Lemma fields_concat us d t :
+  ~ In d t -> Forall (fun u => ~ In d u) us ->
+  fields (t ++ concat (map (cons d) us)) d = (t, us).
+Proof.
+  revert t; induction us as [|u us IH]; intros t Ht Hus.
+  - simpl. rewrite fields_app_clean by assumption. simpl. now rewrite app_nil_r.
+  - inversion Hus as [|? ? Hu Hus']; subst.
+    rewrite fields_app_clean by assumption.
+    cbn [map concat app fields]. rewrite (IH u Hu Hus'). rewrite N.eqb_refl. simpl. now rewrite app_nil_r.
+Qed.
+
+Lemma filter_nonempty (l : list str) :
+  Forall (fun t => t <> []) l -> filter (fun t => Nat.ltb 0 (length t)) l = l.
+Proof.
+  induction 1 as [|t l Ht _ IH]; simpl; [reflexivity|].
+  destruct t; [contradiction | simpl; now rewrite IH].
+Qed.
+
+(* tokenize of non-empty, delimiter-free pieces joined on the delimiter *)
+Lemma tokenize_join t us d :
+  t <> [] -> ~ In d t -> Forall (fun u => u <> [] /\ ~ In d u) us ->
+  tokenize (t ++ concat (map (cons d) us)) d = t :: us.
+Proof.
+  intros Hne Ht Hus. unfold tokenize, tokenize_gen.
+  rewrite fields_concat; [| assumption | eapply Forall_impl; [|exact Hus]; now intros a [_ H]].
+  apply (filter_nonempty (t :: us)). constructor; [assumption|].
+  eapply Forall_impl; [|exact Hus]. now intros a [H _].
+Qed.
+
+(* ------------------------------------------------------------- find("://") *)
+Lemma cut_sep_assemble ty rest : no_sep3 ty -> cut_sep (ty ++ sep3 ++ rest) = Some (ty, rest).
+Proof.
+  induction ty as [|c ty IH]; intro H.
+  - reflexivity.
+  - cbn [app cut_sep].
+    assert (P : prefixb sep3 (c :: ty ++ sep3 ++ rest) = false).
+    { destruct (prefixb sep3 (c :: ty ++ sep3 ++ rest)) eqn:E; [|reflexivity]. exfalso.
+      unfold sep3 in E. cbn [prefixb] in E.
+      destruct ty as [|x [|y t]]; cbn [app prefixb] in E.
+      - rewrite !andb_true_iff, !N.eqb_eq in E. lia.
+      - rewrite !andb_true_iff, !N.eqb_eq in E. lia.
+      - rewrite !andb_true_iff, !N.eqb_eq in E. destruct E as (E1 & E2 & E3 & _).
+        apply (H [] t). unfold sep3. simpl. congruence. }
+    rewrite P. rewrite IH; [reflexivity|].
+    intros a b E. apply (H (c :: a) b). simpl. now rewrite E.
+Qed.
+
+Lemma cut_char_app d n v : ~ In d n -> cut_char d (n ++ d :: v) = Some (n, v).
+Proof.
+  induction n as [|c n IH]; intro H; simpl.
+  - now rewrite N.eqb_refl.
+  - destruct (N.eqb_spec c d) as [->|Hne]; [exfalso; apply H; now left|].
+    rewrite IH by (intro I; apply H; now right). reflexivity.
+Qed.
+
+Lemma parse_arg_enc p : ~ In EQS (fst p) -> parse_arg (enc_param p) = p.
+Proof.
+  intro H. unfold parse_arg, enc_param. fold EQS. rewrite cut_char_app by assumption. now destruct p.
+Qed.
+
+(* a well-formed component list: what the statement of the property quantifies over *)
+Definition wf_parts (ty file : str) (ps : list (str * str)) : Prop :=
+  no_sep3 ty /\
+  file <> [] /\ ~ In COLON file /\
+  Forall (fun p => fst p <> [] /\ ~ In COLON (fst p) /\ ~ In EQS (fst p) /\ ~ In COLON (snd p)) ps.
+
+Lemma purl_parse_assemble ty file ps :
+  wf_parts ty file ps ->
+  purl_parse (assemble ty file ps) = {| u_type := ty; u_file := file; u_params := ps |}.
+Proof.
+  intros (Hty & Hf1 & Hf2 & Hps).
+  unfold purl_parse, purl_parse_gen, assemble.
+  rewrite cut_sep_assemble by assumption.
+  change (tokenize_gen 0) with tokenize.
+  rewrite <- (map_map enc_param (cons COLON)).
+  rewrite tokenize_join; try assumption.
+  - f_equal. rewrite map_map. rewrite <- (map_id ps) at 2. apply map_ext_in.
+    intros p Hp. apply parse_arg_enc. rewrite Forall_forall in Hps. now apply Hps.
+  - rewrite Forall_forall. intros u Hu. apply in_map_iff in Hu as (p & <- & Hp).
+    rewrite Forall_forall in Hps. destruct (Hps p Hp) as (H1 & H2 & H3 & H4).
+    unfold enc_param. split.
+    + intro E. apply app_eq_nil in E as [_ E]. discriminate.
+    + intro I. apply in_app_or in I as [I | [I | I]]; [contradiction | unfold EQS in I; discriminate | contradiction].
+Qed.
+
+(* --------------------------------------------------------------- getValue *)
+Definition absent (name : str) (l : list (str * str)) : Prop := forall v, ~ In (name, v) l.
+
+Lemma get_last_app l1 l2 name acc :
+  get_last (l1 ++ l2) name acc = get_last l2 name (get_last l1 name acc).
+Proof.
+  revert acc; induction l1 as [|[n v] l1 IH]; intro acc; simpl; [reflexivity | apply IH].
+Qed.
+
+Lemma get_last_absent l name acc : absent name l -> get_last l name acc = acc.
+Proof.
+  revert acc; induction l as [|[n v] l IH]; intros acc H; simpl; [reflexivity|].
+  destruct (str_eqb n name) eqn:E.
+  - apply str_eqb_eq in E. subst. exfalso. apply (H v). now left.
+  - apply IH. intros v' I. apply (H v'). now right.
+Qed.
+
+Lemma get_last_some l name acc v :
+  get_last l name acc = Some v <->
+  (exists l1 l2, l = l1 ++ (name, v) :: l2 /\ absent name l2) \/ (acc = Some v /\ absent name l).
+Proof.
+  split.
+  - revert acc. induction l as [|[n v0] l IH] using rev_ind; intros acc H.
+    + right. split; [exact H | intros v' []].
+    + rewrite get_last_app in H. simpl in H.
+      destruct (str_eqb n name) eqn:E.
+      * apply str_eqb_eq in E. subst n. inversion H; subst. left.
+        exists l, []. split; [reflexivity | intros v' []].
+      * apply str_eqb_neq in E. apply IH in H as [(l1 & l2 & -> & Hab) | [-> Hab]].
+        -- left. exists l1, (l2 ++ [(n, v0)]). split; [now rewrite <- app_assoc|].
+           intros v' I. apply in_app_or in I as [I | [I | []]]; [now apply (Hab v') | congruence].
+        -- right. split; [reflexivity|]. intros v' I.
+           apply in_app_or in I as [I | [I | []]]; [now apply (Hab v') | congruence].
+  - intros [(l1 & l2 & -> & Hab) | [-> Hab]].
+    + rewrite get_last_app. simpl. rewrite str_eqb_refl. now apply get_last_absent.
+    + now apply get_last_absent.
+Qed.
+
+(* getValue returns the value of the LAST parameter with that name *)
+Lemma getValue_last u name v :
+  getValue u name = Some v <->
+  exists l1 l2, u_params u = l1 ++ (name, v) :: l2 /\ (forall v', ~ In (name, v') l2).
+Proof.
+  unfold getValue. rewrite get_last_some. split.
+  - intros [H | [H _]]; [exact H | discriminate].
+  - intro H. now left.
+Qed.
+
+Lemma hasParam_iff u name : hasParam u name = true <-> exists v, In (name, v) (u_params u).
+Proof.
+  unfold hasParam. rewrite existsb_exists. split.
+  - intros ([n v] & I & E). apply str_eqb_eq in E. simpl in E. subst. now exists v.
+  - intros (v & I). exists (name, v). split; [assumption | apply str_eqb_refl].
+Qed.
+
+(* getValue throws (None) exactly when the name is not present *)
+Lemma getValue_none u name : getValue u name = None <-> hasParam u name = false.
+Proof.
+  split; intro H.
+  - destruct (hasParam u name) eqn:E; [|reflexivity]. exfalso.
+    apply hasParam_iff in E as (v & I). apply in_split in I as (l1 & l2 & E).
+    (* take the last occurrence in l2, by induction on its length via get_last *)
+    unfold getValue in H. rewrite E, get_last_app in H. simpl in H. rewrite str_eqb_refl in H.
+    clear E. revert H. generalize v. induction l2 as [|[n w] l2 IH]; intros v0 H; simpl in H; [discriminate|].
+    destruct (str_eqb n name); eapply IH; exact H.
+  - unfold getValue. apply get_last_absent. intros v I.
+    assert (hasParam u name = true) by (apply hasParam_iff; now exists v). congruence.
+Qed.
+
+(* the full statement of the property text *)
+Lemma pseudourl_parse_assemble ty file ps :
+  wf_parts ty file ps ->
+  let u := purl_parse (assemble ty file ps) in
+  u_type u = ty /\ u_file u = file /\ u_params u = ps /\
+  (forall name v, getValue u name = Some v <->
+     exists l1 l2, ps = l1 ++ (name, v) :: l2 /\ (forall v', ~ In (name, v') l2)) /\
+  (forall name, hasParam u name = true <-> exists v, In (name, v) ps) /\
+  (forall name, getValue u name = None <-> forall v, ~ In (name, v) ps).
+Proof.
+  intro H. cbv zeta. rewrite (purl_parse_assemble _ _ _ H).
+  set (u := {| u_type := ty; u_file := file; u_params := ps |}).
+  split; [reflexivity|]. split; [reflexivity|]. split; [reflexivity|]. split; [|split].
+  - intros name v. apply (getValue_last u).
+  - intros name. apply (hasParam_iff u).
+  - intros name. split.
+    + intros Hn v I. apply getValue_none in Hn.
+      assert (hasParam u name = true) by (apply hasParam_iff; now exists v). congruence.
+    + intro Hn. apply getValue_none.
+      destruct (hasParam u name) eqn:E; [|reflexivity].
+      apply hasParam_iff in E as (v & I). now destruct (Hn v).
+Qed.
+
+(* the pre-repair constructor (tokenize dropped 1-character tokens) loses a 1-character
+   file name and a 1-character bare parameter of a well-formed URL *)
+Lemma purl_parse_old_refuted :
+  exists ty file ps, wf_parts ty file ps /\
+    purl_parse_old (assemble ty file ps) <> {| u_type := ty; u_file := file; u_params := ps |}.
+Proof.
+  exists [116], [102], [([110], [118])]. split.
+  - repeat split; try discriminate.
+    + intros a b E. destruct a as [|x [|y a]]; discriminate.
+    + intros [E|[]]; discriminate.
+    + constructor; [|constructor]. simpl. repeat split; try discriminate;
+        intros [E|[]]; discriminate.
+  - vm_compute. discriminate.
+Qed.
